@@ -5,8 +5,12 @@ child "process" (and sometimes a grandchild) and the scripted FIFO terminal are 
 the REAL `lock_tty` / `_process_start_wrapper` / `_process_run_wrapper` with traced lock
 objects whose acquire/release park the calling real thread until a central scheduler
 grants the step (impl/impl_c14.py), and on model/Locks.v inside Coq (model/LocksTie.v);
-the (thread, event) traces are compared and the observed trace is judged on its own
-(bodies never overlap, every reply goes to its requester).
+the (thread, event) traces are compared and the observed trace is judged on its own by the
+specification's judge (model/LocksSpec.v: bodies never overlap, every reply goes to its
+requester), which C14_trace_accepted proves to accept every trace of the model.
+Thorough tier: ALL schedules of a small depth (every pick moving) for three thread systems.
+
+Also: a source-shape scan (every inline `with` over the terminal lock acquires it twice).
 
 Supporting evidence only: real fork / spawn children, a grandchild and threads stamp
 enter/exit times of a lock_tty-decorated probe into shared memory (run under a pty)."""
